@@ -1,4 +1,5 @@
 import DaskModel.Lemmas.Groupby
+import DaskModel.Generated.GroupbyAggs
 namespace Dask.C38
 open Dask.Groupby
 variable {V M : Type}
@@ -67,6 +68,32 @@ theorem opTriple_assoc (a b c : Int × Int × Int) : opTriple (opTriple a b) c =
 theorem groupby_first (parts : List (List (Nat × Option Int))) (k : Nat) (hk : 0 < k) (fuel : Nat) :
     treeReduce opFirst k fuel (parts.map (chunk opFirst id)) = chunk opFirst id parts.flatten :=
   groupby_agg_eq_global opFirst opFirst_assoc id parts k hk fuel
+
+/-! ### the aggregation classes of the source, extracted on every run (`Generated/GroupbyAggs.lean`) -/
+
+/-- the merge a `(groupby_chunk, groupby_aggregate)` pair denotes, when it is one of the monoid homomorphisms the
+    theorems above cover (`count`/`size` inject 1 per (non-NA) row and merge by `+`) -/
+def classify : String × String → Option String
+  | ("sum", "sum") => some "add"
+  | ("prod", "prod") => some "mul"
+  | ("min", "min") => some "min"
+  | ("max", "max") => some "max"
+  | ("first", "first") => some "first"
+  | ("last", "last") => some "last"
+  | ("count", "sum") => some "add"
+  | ("size", "sum") => some "add"
+  | _ => none
+
+/-- **the extracted table is the one the model assumes**: every `SingleAggregation` subclass of
+    `dask_expr/_groupby.py` with its (chunk, aggregate) pair, classified. `IdxMin`/`IdxMax` = (`idxmin`, `first`) is
+    NOT a homomorphism (the first partial wins without comparing values — known finding); `Head`/`Tail`/`Unique`/
+    `ValueCounts` use their own combine functions and are validated only. A change of any pair in the source
+    changes the generated table and breaks this theorem. -/
+theorem extracted_aggregations_classified :
+    Dask.Generated.groupbyAggs.map (fun e => (e.1, classify (e.2.1, e.2.2))) =
+      [("Count", some "add"), ("First", some "first"), ("Head", none), ("IdxMax", none), ("IdxMin", none),
+       ("Last", some "last"), ("Max", some "max"), ("Min", some "min"), ("Prod", some "mul"), ("Size", some "add"),
+       ("Sum", some "add"), ("Tail", none), ("Unique", none), ("ValueCounts", none)] := by decide
 
 /-! non-vacuity -/
 example : chunk opFirst id [(0, some 5), (1, none), (1, some 7), (0, some 2)] 1 = some 7 := by decide
